@@ -564,14 +564,21 @@ type fixedTop struct {
 
 func (g *gen) structHist() {
 	r := g.env.Rng
-	if r.Intn(2) == 0 {
+	switch r.Intn(5) {
+	case 0, 1:
 		g.structHistOn(reflect.ValueOf(&Hst{}), fmt.Sprintf("[%d; %d]", nameID("Hello"), nameID("Inc")), nil)
-	} else {
+	case 2:
+		g.structHistOn(cfgVariant(r.Intn(6)), "[]", nil)
+	default:
 		g.structHistOn(reflect.New(g.randStructType()), "[]", nil)
 	}
 }
 
 func (g *gen) structHistOn(p reflect.Value, methods string, fixed []fixedTop) {
+	g.structHistVM(otto.New(), p, methods, fixed)
+}
+
+func (g *gen) structHistVM(vm *otto.Otto, p reflect.Value, methods string, fixed []fixedTop) {
 	r := g.env.Rng
 	t := p.Elem().Type()
 	// settable int leaves
@@ -607,7 +614,6 @@ func (g *gen) structHistOn(p reflect.Value, methods string, fixed []fixedTop) {
 		}
 		init = append(init, Clist([]string{Cz(x)}))
 	}
-	vm := otto.New()
 	Must(vm.Set("t", p.Interface()))
 	n := r.Intn(7) + 2
 	if fixed != nil {
